@@ -63,6 +63,8 @@ def fresh_hub():
                        'where': ''.join(traceback.format_tb(tb)[-2:])[-400:],
                        'context': repr(context)[:100]})
     hub.print_exception = record
+    YIELDS[0] = 0
+    INJECT.clear()
     return hub
 
 
@@ -104,9 +106,20 @@ def patch_env():
             m.uuid = fake_uuid
 
 
+YIELDS = [0]
+INJECT = {}        # yield index -> callable (run inside the yielding op)
+
+
 def yield_point(latency=None):
-    """A blocking substrate operation: other greenlets may run."""
+    """A blocking substrate operation: other greenlets may run.  Harnesses
+    may inject an external event (announcement, flush, ...) at the k-th
+    yield of a run: INJECT[k] = fn."""
     import gevent
+    k = YIELDS[0]
+    YIELDS[0] = k + 1
+    fn = INJECT.pop(k, None)
+    if fn is not None:
+        fn()
     gevent.sleep(0 if latency is None else latency)
 
 
@@ -129,6 +142,7 @@ class ScriptRelay(object):
         self.in_flight = {}
         self.relay_policies = []
         self._base = Relay
+        self.mapping_order = 'envelope'
 
     def _attempt(self, envelope, attempts):
         return self.attempt(envelope, attempts)
@@ -182,7 +196,10 @@ class ScriptRelay(object):
                                                    Reply('450', r[1])))
         if kind == Outcome.SEQUENCE:
             return results
-        return dict(zip(envelope.recipients, results))
+        pairs = list(zip(envelope.recipients, results))
+        if self.mapping_order == 'reversed':
+            pairs.reverse()
+        return dict(pairs)
 
 
 # -------------------------------------------------------------- fake redis
@@ -479,14 +496,23 @@ class FakeFS(object):
         import gevent
         data = bytes(data.tobytes() if hasattr(data, 'tobytes') else data)
         self.effect('write %d bytes' % len(data))
+        self._yp()
         f = self.files[self.fds[fd]]
         if len(f) < offset:
             f.extend(b'\0' * (offset - len(f)))
         f[offset:offset + len(data)] = data
         gevent.get_hub().loop.run_callback(callback, len(data), 0)
 
+    def _yp(self):
+        k = YIELDS[0]
+        YIELDS[0] = k + 1
+        fn = INJECT.pop(k, None)
+        if fn is not None:
+            fn()
+
     def aio_read(self, fd, offset, size, callback):
         import gevent
+        self._yp()
         f = self.files[self.fds[fd]]
         buf = bytes(f[offset:offset + size])
         gevent.get_hub().loop.run_callback(callback, buf, len(buf), 0)
